@@ -74,6 +74,24 @@ def run(R):
     R.check(p is None and sets, "C11.CANCEL-NOOP", ca.qualname + ":completes", R.site(ca),
             "cancel() on a pending batch completes it with an error", "cancel() on a pending batch can return without completing it",
             ccfg.fmt_path(p) if p else None)
+    ep_c = q.param_names(ca.node)[1] if len(q.param_names(ca.node)) > 1 else "error"
+    dflt = [n for n in ccfg.nodes if n.kind == "stmt" and isinstance(n.ast, ast.Assign) and any(q.src(t) == ep_c for t in n.ast.targets)
+            and isinstance(n.ast.value, ast.Call) and (q.call_name(n.ast.value) or "").endswith("BatchCancelledError")]
+
+    def none_given(nd):
+        if nd.kind != "test":
+            return None
+        k, s, pos = q.atom_test(nd.ast)
+        if k == "isnone" and s == ep_c:
+            return "F" if pos else "T"       # the edge on which an error WAS given
+        return None
+    # completing with the caller's `error` unchanged is only allowed when one was given: otherwise the default is substituted first
+    p = ccfg.find_path([ccfg.entry], sets, N, cut_nodes=dflt,
+                       keep_edge=lambda e: not (none_given(ccfg.nodes[e.src]) is not None and e.label == none_given(ccfg.nodes[e.src])))
+    R.check(p is None and dflt, "C11.CANCEL-NOOP", ca.qualname + ":default-error", R.site(ca),
+            "cancel() without an error completes the batch with a BatchCancelledError",
+            "cancel() without an error can complete the batch with error None: the batch then counts as flushed successfully and its items get the 'not set' AssertionError",
+            ccfg.fmt_path(p) if p else None)
     # ---- SWITCH-FIRST
     comp = bb.methods.get("_compute")
     R.need(comp is not None, "anchor vanished: BatchBase._compute")
@@ -111,6 +129,23 @@ def run(R):
     cancels = [n for n, c in kit.call_sites(cd, lambda c: q.call_name(c) == "self._cancel")]
     R.check(bool(cancels), "C11.CANCEL-HOOK", cd.qualname, R.site(cd), "_computed calls the _cancel hook for a batch that finished with an error",
             "the _cancel hook is never called")
+    errn = set(t.id for n in q.scope_nodes(cd.node) if isinstance(n, ast.Assign) and q.src(n.value) in ("self.error()", "self._error") for t in n.targets if isinstance(t, ast.Name))
+    flags = set(t.id for n in q.scope_nodes(cd.node) if isinstance(n, ast.Assign) and isinstance(n.value, ast.Compare) and q.atom_test(n.value)[0] == "isnone"
+                and q.atom_test(n.value)[1] in errn and not q.atom_test(n.value)[2] for t in n.targets if isinstance(t, ast.Name))
+
+    def failed(nd):
+        if nd.kind != "test":
+            return None
+        k, s, pos = q.atom_test(nd.ast)
+        if k == "truth" and s in flags:
+            return "T" if pos else "F"
+        if k == "isnone" and s in errn:
+            return "F" if pos else "T"
+        return None
+    if cancels:
+        p = kit.path_avoiding_guard(dcfg, cancels, failed, N)
+        R.check(p is None, "C11.CANCEL-HOOK", cd.qualname + ":guard", R.site(cd), "the _cancel hook runs only for a batch that finished with an error",
+                "the _cancel hook can run for a batch that was flushed successfully", dcfg.fmt_path(p) if p else None)
     # ---- NO-ADD
     bi = ro.BatchItemBase
     init = bi.methods.get("__init__")
